@@ -142,6 +142,7 @@ class Raises(object):
         self.discharged = []      # (caller short, site, reason)
         self._facts_cache = {}
         self._ev_cache = {}
+        self._dead_cache = {}
 
     # ----------------------------------------------------------------- facts at a node
     def facts_at(self, f, node):
@@ -162,6 +163,14 @@ class Raises(object):
                 if self._fact_still_valid(f, g, br, node, text, pol=p):
                     out.append((text, p))
         out += self._universal_loop_facts(f, g, node)
+        # dominating stores of a constant:  X.attr = None  =>  (X.attr is None) holds until X.attr is stored again
+        for n in g.nodes:
+            if n.kind == "stmt" and isinstance(n.ast, ast.Assign) and len(n.ast.targets) == 1 and n.id != node.id \
+                    and isinstance(n.ast.targets[0], ast.Attribute) and isinstance(n.ast.value, ast.Constant) \
+                    and n.ast.value.value is None and g.dominates(n, node):
+                t = norm(n.ast.targets[0])
+                if self._fact_still_valid(f, g, n, node, t + " None", stores_to=t):
+                    out.append(("%s is None" % t, True))
         # alias facts from dominating simple stores  X.attr = name
         for n in g.nodes:
             if n.kind == "stmt" and isinstance(n.ast, ast.Assign) and len(n.ast.targets) == 1 and n.id != node.id \
@@ -241,8 +250,8 @@ class Raises(object):
         aliases = dict((t[6:].split(" = ")[0], t[6:].split(" = ")[1]) for t, _ in facts if t.startswith("ALIAS "))
         for a, b in aliases.items():
             text = text.replace(a, b)
-        # literal evaluation
-        v = self._const_eval(text, const_map)
+        # literal / three valued evaluation with the established facts as known atoms
+        v = self._tri_eval(text, facts, aliases)
         if v is not None:
             return (v == pol)
         for ft, fp in facts:
@@ -272,6 +281,59 @@ class Raises(object):
                 if "None" not in ks and "?" not in ks:
                     return pol is False
         return None
+
+    def _tri_eval(self, text, facts, aliases):
+        """True/False/None (unknown) for a condition text, using constants and established facts."""
+        e = self._parse(text)
+        if e is None:
+            return None
+        known = {}
+        for ft, fp in facts:
+            if ft.startswith("ALIAS "):
+                continue
+            for a, b in aliases.items():
+                ft = ft.replace(a, b)
+            known[ft] = fp
+
+        def ev(n):
+            t = norm(n)
+            if t in known:
+                return known[t]
+            if isinstance(n, ast.Constant):
+                return bool(n.value) if not isinstance(n.value, str) or True else None
+            if isinstance(n, ast.UnaryOp) and isinstance(n.op, ast.Not):
+                v = ev(n.operand)
+                return None if v is None else (not v)
+            if isinstance(n, ast.BoolOp):
+                vals = [ev(v) for v in n.values]
+                if isinstance(n.op, ast.And):
+                    if any(v is False for v in vals):
+                        return False
+                    return True if all(v is True for v in vals) else None
+                if any(v is True for v in vals):
+                    return True
+                return False if all(v is False for v in vals) else None
+            if isinstance(n, ast.Compare) and len(n.ops) == 1:
+                l, r = n.left, n.comparators[0]
+                op = n.ops[0]
+                if isinstance(op, (ast.Is, ast.IsNot, ast.Eq, ast.NotEq)) and isinstance(l, ast.Constant) and isinstance(r, ast.Constant):
+                    same = (l.value is r.value) if isinstance(op, (ast.Is, ast.IsNot)) else (l.value == r.value)
+                    return same if isinstance(op, (ast.Is, ast.Eq)) else (not same)
+                if isinstance(op, ast.IsNot):
+                    t2 = norm(ast.Compare(left=l, ops=[ast.Is()], comparators=[r]))
+                    if t2 in known:
+                        return not known[t2]
+                if isinstance(op, ast.NotIn):
+                    t2 = norm(ast.Compare(left=l, ops=[ast.In()], comparators=[r]))
+                    if t2 in known:
+                        return not known[t2]
+                if isinstance(op, (ast.Is, ast.IsNot)) and isinstance(r, ast.Constant) and r.value is None and isinstance(l, ast.Constant):
+                    return (l.value is None) if isinstance(op, ast.Is) else (l.value is not None)
+            return None
+        try:
+            return ev(e)
+        except Exception:
+            return None
 
     def _const_eval(self, text, const_map):
         t = substitute(text, const_map)
@@ -418,29 +480,84 @@ class Raises(object):
         return names
 
     # ---------------------------------------------------------------- summaries
-    def summary(self, f):
-        """list of RaiseSite escaping f (guards in f's terms)."""
-        if f.qualname in self.R:
-            return self.R[f.qualname]
-        if f.qualname in self._busy:
+    def entry_facts_for(self, tgt, args, f, caller_entry=()):
+        """facts about tgt's parameters that follow from constant / omitted arguments at a call
+        (None, True, False, other literals), or from the caller's own entry facts for plain names."""
+        out = []
+        allp = tgt.params + tgt.kwonly
+        known = dict(caller_entry)
+        for i, p in enumerate(allp):
+            if i == 0 and (tgt.has_self or tgt.name == "__init__"):
+                continue
+            a = args.get(i) if isinstance(args, dict) else None
+            if a is None:
+                a = tgt.defaults.get(p)
+                if a is None:
+                    continue
+            if isinstance(a, ast.Constant):
+                v = a.value
+                if v is None:
+                    out += [("%s is None" % p, True), (p, False)]
+                elif v is True or v is False:
+                    out += [(p, v), ("%s is None" % p, False)]
+                else:
+                    out += [("%s is None" % p, False), (p, bool(v))]
+            elif isinstance(a, ast.Name) and f is not None:
+                for suffix, key in ((" is None", "%s is None" % a.id), ("", a.id)):
+                    if key in known:
+                        out.append(("%s%s" % (p, suffix), known[key]))
+        return tuple(sorted(set(out)))
+
+    def dead_under_entry(self, f, g, node, entry):
+        """node cannot execute when the entry facts hold (a dominating branch is refuted while its names are still unchanged)."""
+        if not entry:
+            return False
+        key = (f.qualname, node.id, entry)
+        if key in self._dead_cache:
+            return self._dead_cache[key]
+        res = False
+        for test, pol, br in g.dominating_conditions(node):
+            if pol not in ("true", "false"):
+                continue
+            names = names_in_text(norm(test))
+            rel = [(t, v) for (t, v) in entry if names_in_text(t) & names]
+            if not rel:
+                continue
+            if not all(self._fact_still_valid(f, g, g.entry, br, t) for t, _ in rel):
+                continue
+            v = self._tri_eval(norm(test), list(rel), {})
+            if v is not None and v != (pol == "true"):
+                res = True
+                break
+        self._dead_cache[key] = res
+        return res
+
+    def summary(self, f, entry=()):
+        """list of RaiseSite escaping f (guards in f's terms); entry: facts about f's parameters known at the call"""
+        key = (f.qualname, entry)
+        if key in self.R:
+            return self.R[key]
+        if key in self._busy:
             return []
-        self._busy.add(f.qualname)
+        self._busy.add(key)
         out = {}
         g = self.s.cfg(f)
         for node in g.nodes:
             if not g.reachable(node):
                 continue
+            if entry and self.dead_under_entry(f, g, node, entry):
+                continue
             for ev in node_events(node):
-                for site in self.event_raises(f, node, ev):
+                for site in self.event_raises(f, node, ev, entry=entry):
                     if self._caught_locally(g, node, site.exc):
                         continue
                     out.setdefault(site.key(), site)
             # bare `raise` inside a handler re-raises what the handler caught: modelled by the
             # handler's declared classes
-        self._busy.discard(f.qualname)
+        self._busy.discard(key)
         res = list(out.values())
         if not self._busy:
-            self.R[f.qualname] = res
+            self.R[key] = res
         return res
 
     def _caught_locally(self, g, node, exc):
@@ -451,19 +568,18 @@ class Raises(object):
         return False
 
     def own_guards(self, f, node):
-        return [(t, p) for (t, p) in self.facts_at(f, node) if not t.startswith("ALIAS ")][-8:]
+        return [(t, p) for (t, p) in self.facts_at(f, node) if not t.startswith("ALIAS ")][-12:]
 
-    def event_raises(self, f, node, ev, with_discharge=True):
-        key = (f.qualname, node.id, id(ev["ast"]), ev["kind"], with_discharge)
+    def event_raises(self, f, node, ev, with_discharge=True, entry=()):
+        key = (f.qualname, node.id, id(ev["ast"]), ev["kind"], with_discharge, entry)
         if key in self._ev_cache:
             return self._ev_cache[key]
-        busy_before = set(self._busy)
-        res = self._event_raises(f, node, ev, with_discharge)
-        if not self._busy or self._busy == set([f.qualname]):
+        res = self._event_raises(f, node, ev, with_discharge, entry)
+        if not self._busy or self._busy == set([(f.qualname, entry)]):
             self._ev_cache[key] = res
         return res
 
-    def _event_raises(self, f, node, ev, with_discharge=True):
+    def _event_raises(self, f, node, ev, with_discharge=True, entry=()):
         """RaiseSites an event may produce, in f's terms (already discharged against f's facts)."""
         k = ev["kind"]
         a = ev["ast"]
@@ -547,7 +663,7 @@ class Raises(object):
         for tgt, args, ctext in callees:
             if tgt.is_generator and k == "call":
                 continue     # calling a generator function runs nothing; iteration does (approximated at the call's consumer)
-            for site in self.summary(tgt):
+            for site in self.summary(tgt, self.entry_facts_for(tgt, args, f, entry)):
                 lifted = self.lift(site, tgt, args, f, node, ctext)
                 if lifted is None:
                     continue
@@ -572,7 +688,7 @@ class Raises(object):
                 # the conditions under which f reaches this call are necessary for the raise as well
                 if own is None:
                     own = self.own_guards(f, node)
-                lifted.guards = tuple(list(lifted.guards) + [g0 for g0 in own if g0 not in lifted.guards])[-12:]
+                lifted.guards = tuple(list(lifted.guards) + [g0 for g0 in own if g0 not in lifted.guards])[-36:]
                 out.append(lifted)
         # generator functions: their body runs when iterated; attribute their raises to the call site
         if k == "call":
@@ -605,7 +721,7 @@ class Raises(object):
             elif p in tgt.defaults:
                 mapping[p] = unparse(tgt.defaults[p])
             elif i == 0 and tgt.name == "__init__":
-                mapping[p] = "<new>"
+                mapping[p] = "NEWOBJ"
         # `for x in <*varargs>` with exactly one actual argument: x is that argument
         va = args.get("varargs") if isinstance(args, dict) else None
         loopvars = set()
@@ -626,7 +742,7 @@ class Raises(object):
                 continue
             guards.append((substitute(t, mapping), pol))
         chain = ("%s:%s" % (f.short, ctext),) + site.chain
-        return RaiseSite(site.exc, site.origin, guards[-10:], chain[:8], site.lineno, site.path)
+        return RaiseSite(site.exc, site.origin, guards[-30:], chain[:8], site.lineno, site.path)
 
     def _is_global_name(self, n, tgt):
         if n in tgt.module.classes or n in tgt.module.imports or n in tgt.module.assigns or n in tgt.module.functions:
@@ -641,6 +757,19 @@ class Raises(object):
             v = self.eval_atom(t, pol, f, node, facts, const_map)
             if v is False:
                 return "guard `%s` is %s here" % (t, not pol)
+        # the guards must be consistent with each other: simple atoms serve as facts for compound ones
+        simple = [(t, pol) for (t, pol) in lifted.guards if " and " not in t and " or " not in t]
+        if simple:
+            for (t, pol) in lifted.guards:
+                if " and " in t or " or " in t:
+                    v = self._tri_eval(t, list(facts) + simple, {})
+                    if v is not None and v != pol:
+                        return "guards `%s` = %s and %s cannot hold together" % (t, pol, [x for x in simple if x[0] in t][:2])
+            seen = {}
+            for (t, pol) in simple:
+                if seen.get(t, pol) != pol:
+                    return "guards require `%s` to be both true and false" % t
+                seen[t] = pol
         # isinstance guards on one object jointly exclude every kind it can have
         per_obj = {}
         for (t, pol) in lifted.guards:
